@@ -701,6 +701,11 @@ func (i *Interpreter) ProcessDeliver() error {
 	} else if i.ctx.BackendResponse != nil {
 		i.ctx.Response = i.ctx.BackendResponse.Clone()
 	}
+	// Neither cached object nor backend response exists,
+	// e.g. return(deliver_stale) in vcl_miss without any stale object
+	if i.ctx.Response == nil {
+		return exception.Runtime(nil, "No object or backend response to deliver in DELIVER")
+	}
 
 	// Add Fastly related server info but values are falco's one.
 	// Note that these headers could be removed in vcl_deliver subroutine
